@@ -208,10 +208,10 @@ namespace wc
   inline WorldCfg draw_cfg(int lmax_cap_2d, int lmax_cap_3d, bool allow_3d = true)
   {
     WorldCfg c;
-    static const char* files[5] = {"unit-square-quad.xml", "unit-square-tria.xml", "l-shape-quad.xml", "unit-cube-hexa.xml", "l-shape-tria.xml"};
-    c.mesh = int(sim::cfg_weighted("mesh", {5, 3, 3, allow_3d ? 2 : 0, 2}));
+    static const char* files[6] = {"unit-square-quad.xml", "unit-square-tria.xml", "l-shape-quad.xml", "unit-cube-hexa.xml", "l-shape-tria.xml", "unit-cube-tetra.xml"};
+    c.mesh = int(sim::cfg_weighted("mesh", {5, 3, 3, allow_3d ? 2 : 0, 2, allow_3d ? 1 : 0}));
     c.mesh_file = files[c.mesh];
-    const bool is3d = (c.mesh == 3);
+    const bool is3d = (c.mesh == 3 || c.mesh == 5);
     static const int ns[16] = {1, 2, 2, 3, 3, 4, 4, 5, 6, 7, 8, 8, 9, 12, 15, 16};
     c.n = ns[sim::cfg_int("n_idx", 0, 15)];
     c.layers = 1;
